@@ -122,3 +122,27 @@ func Now() time.Duration {
 
 // SpawnFromTimer starts a task from a timer callback (time.AfterFunc).
 func SpawnFromTimer(name string, lib bool, fn func()) { S.spawn(name, lib, fn) }
+
+// Tick lag (a clock fault): a real time.Ticker value is "the time the tick was due, plus whatever delay
+// the runtime suffered between noticing the expiry and stamping the value". A thread that is descheduled
+// in that window (a slow or stalled node) produces a value that is later than the next tick's, which is
+// stamped without the delay: consecutive values can go backwards. A harness opts in per run.
+func SetTickLag(on bool) {
+	if S != nil {
+		S.tickLag = on
+	}
+}
+
+// DrawTickLag returns the delay (0 most of the time) the current tick of a ticker with the given period
+// suffers; drawn from the schedule stream.
+func DrawTickLag(period time.Duration) time.Duration {
+	s := S
+	if s == nil || !s.tickLag {
+		return 0
+	}
+	if SchedDraw(3) != 0 {
+		return 0
+	}
+	s.faults.add("ticker_value_lag", 1)
+	return period * time.Duration([]int{1, 3, 5, 8}[SchedDraw(4)]) / 2
+}
